@@ -86,7 +86,8 @@ def heldObs {σ : Type} (cfg : Cfg) (c : Cache σ) : List String :=
     s!"{r.id}:{n}:{if outdated then 1 else 0}")
 
 def hasObs {σ : Type} (cfg : Cfg) (c : Cache σ) (nkeys : Nat) : List String :=
-  ((List.range nkeys).filter fun k => (Cache.lookup cfg c k).isSome).map toString
+  -- keys `0..nkeys`, plus the keys a re-entrant listener inserts (1000..1002)
+  (((List.range nkeys) ++ [1000, 1001, 1002]).filter fun k => (Cache.lookup cfg c k).isSome).map toString
 
 /-- Process one op line.  Returns the new cache and an optional mismatch. -/
 def stepLine {σ : Type} (P : Policy σ) (hk : Hooks σ) (cfg : Cfg) (nkeys : Nat)
@@ -112,7 +113,10 @@ def stepLine {σ : Type} (P : Policy σ) (hk : Hooks σ) (cfg : Cfg) (nkeys : Na
     let canon (l : List String) := if sorted then sortStrings l else l
     let implLeaves := showList (canon (listOf (getD f "leaves" "-")))
     let implPiped := showList (canon (listOf (getD f "piped" "-")))
-    let f' : Fields := ("leaves", implLeaves) :: ("piped", implPiped) :: f.filter fun (k, _) => k ≠ "leaves" && k ≠ "piped"
+    let f' : Fields :=
+      (if (get? f "leaves").isSome then [("leaves", implLeaves)] else []) ++
+      (if (get? f "piped").isSome then [("piped", implPiped)] else []) ++
+      f.filter fun (k, _) => k ≠ "leaves" && k ≠ "piped"
     let mm := firstSome [
       cmpField f' "ret" (showRet out.ret),
       cmpField f' "leaves" (showList (canon (showLeaves out.leaves))),
@@ -159,12 +163,13 @@ def parseObs (f : Fields) : Option Mon.MemObs := do
     | [e, a, b, c] => do pure ((← parseReason e), (← parseORec s!"{a}:{b}:{c}"))
     | _ => none
   let piped := (listOf (getD f "piped" "-")).filterMap parseORec
-  let held := (listOf (getD f "held" "-")).filterMap fun t =>
+  let held := (get? f "held").map fun hs => (listOf hs).filterMap fun t =>
     match tuple t with
     | [a, b, c] => do pure ((← a.toNat?), (← b.toNat?), decide (c = "1"))
     | _ => none
-  pure { op, ret, leaves, piped, usage := getNatD f "usage" 0, entries := getNatD f "entries" 0,
-         has := natList (getD f "has" "-"), held, stable := getD f "stable" "1" = "1" }
+  pure { op, ret, leaves, piped, usage := getNat? f "usage", entries := getNat? f "entries",
+         has := (get? f "has").map natList, held, stable := getD f "stable" "1" = "1",
+         pipedKnown := (get? f "piped").isSome }
 
 /-- Evaluate the property monitors on the implementation's own trace. -/
 def runMonitor (cfgF : Fields) (ops : List (Nat × Fields)) : String :=
@@ -172,6 +177,10 @@ def runMonitor (cfgF : Fields) (ops : List (Nat × Fields)) : String :=
   let cfg : Cfg := { nshards, H := parseH (getD cfgF "hmode" "id") }
   let p : Mon.Params := { cfg, isLru := getD cfgF "impl" "" = "lru" }
   let obs := ops.filterMap fun (_, f) => parseObs f
+  match ops.find? (fun (_, f) => getD f "ret" "" = "deadlock") with
+  | some (ln, f) =>
+    s!"FAILS prop=C16 clause=reentrant_callback_deadlocks line={ln} step={ops.length - 1} detail=operation_{getD f "op" ""}_never_returned_(callback_invoked_under_a_cache_lock)"
+  | none =>
   if obs.length ≠ ops.length then "FAILS prop=- clause=unparsable step=0 detail=unparsable-line"
   else match Mon.run p (getNatD cfgF "cap" 0) obs with
     | none => "HOLDS"
